@@ -168,12 +168,23 @@ reported after the exit status was decided (obicsv > /dev/full exits 0 on some r
 							lit = lits[info.ObjectOf(id)]
 						}
 					}
-					if lit == nil {
+					var body *ast.BlockStmt
+					ginfo := info
+					if lit != nil {
+						body = lit.Body
+					} else if f := callee(info, g.Call); f != nil {
+						// go f(…), f declared in the module
+						if hd, hp := c.DeclOf(f); hd != nil && hp != nil && hd.Body != nil {
+							body, ginfo = hd.Body, hp.TypesInfo
+						}
+					}
+					if body == nil {
 						return true
 					}
+					info := ginfo
 					var told, closed, deferredClose token.Pos
 					var stack []ast.Node
-					ast.Inspect(lit.Body, func(m ast.Node) bool {
+					ast.Inspect(body, func(m ast.Node) bool {
 						if m == nil {
 							stack = stack[:len(stack)-1]
 							return true
@@ -196,7 +207,7 @@ reported after the exit status was decided (obicsv > /dev/full exits 0 on some r
 								told = call.Pos()
 							}
 							if inDefer && !told.IsValid() {
-								told = lit.Body.Rbrace // a deferred signal is raised at the end
+								told = body.Rbrace // a deferred signal is raised at the end
 							}
 						default:
 							sel, ok := ast.Unparen(call.Fun).(*ast.SelectorExpr)
